@@ -60,14 +60,25 @@ def kind_of(spec):
 # ------------------------------------------------------------------------------------ C01
 
 
-def run_incremental(spec, stream, init, chunks, on_step=None):
+def _encoded(rows, enc):
+    """the appended chunk as Candle objects, or - the same candle data - as dicts / lists (rows without a stamp stay Candle objects)"""
+    if not enc or enc == "candle" or any(t[0] is None for t in rows):
+        return cm.mk_candles(rows)
+    from .. import wire
+
+    if enc == "dict":
+        return [{"open": o, "high": h, "low": l, "close": c, "volume": v, "timestamp": wire.secs_to_ts(ts)} for ts, o, h, l, c, v in rows]
+    return [[wire.secs_to_ts(ts), o, h, l, c, v] for ts, o, h, l, c, v in rows]
+
+
+def run_incremental(spec, stream, init, chunks, on_step=None, enc=None):
     ind = specs.build_indicator(spec, cm.mk_candles(stream[:init]))
     i = init
     if on_step:
         ind.calculate()
         on_step(ind, i)
     for k in chunks:
-        ind.append(cm.mk_candles(stream[i : i + k]))
+        ind.append(_encoded(stream[i : i + k], enc))
         i += k
         if on_step:
             on_step(ind, i)
@@ -88,7 +99,7 @@ def c01_check(scn):
     except Exception as e:
         return None  # totality is C09's subject; C01 compares runs that complete
     try:
-        a = snapshot(run_incremental(scn["spec"], scn["stream"], scn["init"], scn["chunks"]).candles)
+        a = snapshot(run_incremental(scn["spec"], scn["stream"], scn["init"], scn["chunks"], enc=scn.get("enc")).candles)
     except Exception as e:
         return {"clause": "incremental-raises", "observed": repr(e), "expected": "same as batch (which completed)"}
     d = first_diff(a, b)
@@ -123,6 +134,8 @@ def c01_case(rng, idx, params):
     stream, meta = gen.gen_stream(rng, n, price_style=gen.style_for(rng, spec["kind"]), step=step)
     (init, chunks), shape = gen.gen_schedule(rng, n)
     scn = {"spec": spec, "stream": stream, "init": init, "chunks": chunks}
+    if rng.random() < 0.25:
+        scn["enc"] = rng.choice(["dict", "list"])   # the appended chunks as dicts / lists: the same stream, so the same end state
     bad = c01_check(scn)
     viol = None
     if bad:
